@@ -223,6 +223,7 @@ def _sh(kinds, depths):
 
 from zverif.harness.c20 import h_demo as _demo_new_oid  # noqa: E402
 from zverif.harness.c03 import h_store_serial as _store_serial  # noqa: E402  (conflict detection across both layers)
+from zverif.harness.c03 import h_check_current as _check_current  # noqa: E402
 
 HARNESSES = [
     Harness('load_before', h_load_before,
@@ -246,6 +247,12 @@ HARNESSES = [
                     'whichever layer holds it - is refused or merged, never accepted blindly (same harness as C03 store_serial)',
             symbolic='serial (8 free bytes), object selector', bounds='history RC split over base and changes', oracle='RevStore + resolver arithmetic',
             pure_python=True, code=['DemoStorage.store'],
+            quick=dict(timeout=100, shards=shards(storage=['demo', 'demo_file'])), thorough=dict(timeout=300, shards=shards(storage=['demo', 'demo_file']))),
+    Harness('check_current', _check_current,
+            decides='a declared read dependency (checkCurrentSerialInTransaction) is judged against the merged view: current iff the serial '
+                    'is the newest revision in changes-over-base, also for objects that live only in the base (C03 check_current)',
+            symbolic='serial (8 free bytes), object selector (in changes / only in base / missing)', bounds='history RC over 2 layers',
+            oracle='RevStore', code=['DemoStorage.checkCurrentSerialInTransaction', 'DemoStorage.getTid'],
             quick=dict(timeout=100, shards=shards(storage=['demo', 'demo_file'])), thorough=dict(timeout=300, shards=shards(storage=['demo', 'demo_file']))),
     Harness('new_oid', _demo_new_oid,
             decides='new ids never collide with ids in either layer or issued before, whatever the random draws (same harness as C20 demo)',
